@@ -10,6 +10,7 @@ mod e2ereq;
 mod fanout;
 mod mock;
 mod pubsub;
+mod registry;
 mod reqrep;
 mod topic;
 mod wire;
@@ -57,6 +58,7 @@ fn main() {
         "reqrep" => reqrep::run(&cfg),
         "e2epub" => e2epub::run(&cfg),
         "e2ereq" => e2ereq::run(&cfg),
+        "registry" => registry::run(&cfg),
         other => { eprintln!("unknown suite {other}"); std::process::exit(2); }
     }
 }
